@@ -104,6 +104,16 @@ fn exec<D: Doc>(p: &PrepDoc<D>, m: Mutation, via: Via, scratch: &std::path::Path
     }
     let (bytes, want, field) = expected(&p.b, m);
     let what = format!("{:?} of a {} stream via {:?}", m, D::NAME, via);
+    // the reference of "accepted with the same value" is the fault-free read through the same kind of path
+    let reference: Option<&Vec<u8>> = match via {
+        Via::Full | Via::File(Loader::Full, _) => p.canon_full.as_ref(),
+        _ => p.canon_eps.as_ref(),
+    };
+    if reference.is_none() {
+        // this path cannot even read the unmodified stream: an unclaimed round-trip matter; nothing to judge
+        return Ok((0, "no-reference"));
+    }
+    let reference = reference.unwrap();
     // Result<Result<canon, err name>, panic>
     let got: Result<Result<Vec<u8>, String>, String> = match via {
         Via::Full => catch(|| {
@@ -156,7 +166,7 @@ fn exec<D: Doc>(p: &PrepDoc<D>, m: Mutation, via: Via, scratch: &std::path::Path
     match (&got, &want) {
         (Err(pmsg), _) => Err(Violation::new("C10/panic", format!("{}: panicked ({})", what, pmsg))),
         (Ok(Ok(c)), Expect::SameValue) => {
-            if *c == p.canon {
+            if c == reference {
                 Ok((Fnv::new().str("same").get(), field))
             } else {
                 Err(Violation::new("C10/value-differs", format!("{}: accepted, but the value differs from the unmodified stream's", what)))
@@ -233,12 +243,12 @@ impl DocFn for RunUnit<'_> {
     fn call<D: Doc>(self) {
         let RunUnit { ctx, unit, vi } = self;
         ctx.begin(unit, u64::MAX);
-        let Some(p) = prep_doc::<D>(ctx.seed, ID, vi, ctx.tier) else {
+        let Some(p) = prep_doc_need::<D>(ctx.seed, ID, vi, ctx.tier, Need::Stream) else {
             ctx.count("control_failures");
             return;
         };
         ctx.docs_seen.insert(D::NAME.to_string());
-        let canon_digest = Fnv::new().bytes(&p.canon).get();
+        let canon_digest = Fnv::new().bytes(&p.b).get();
         let cs = cases(ctx.seed, D::NAME, vi, ctx.tier);
         let scratch = ctx.scratch.clone();
         for (sub, (m, via)) in cs.iter().enumerate() {
@@ -249,6 +259,10 @@ impl DocFn for RunUnit<'_> {
                     ctx.logical_steps += 1;
                     if field == "unavailable" {
                         ctx.count("skipped.loader_not_in_build");
+                        continue;
+                    }
+                    if field == "no-reference" {
+                        ctx.count("skipped.path_has_no_fault_free_reference");
                         continue;
                     }
                     ctx.count(&format!("fault.corrupt_{}", field));
@@ -287,7 +301,7 @@ struct Replay<'a> {
 impl DocFn for Replay<'_> {
     type Out = Result<Option<Violation>, String>;
     fn call<D: Doc>(self) -> Self::Out {
-        let Some(p) = prep_doc::<D>(self.seed, ID, self.case.vi, self.tier) else { return Err("the fault-free control run of this value fails".into()) };
+        let Some(p) = prep_doc_need::<D>(self.seed, ID, self.case.vi, self.tier, Need::Stream) else { return Err("the fault-free control run of this value fails".into()) };
         Ok(exec(&p, self.case.mutation, self.case.via, &self.scratch).err())
     }
 }
